@@ -81,3 +81,88 @@ pub fn search(rng: &mut crate::Rng, budget: u64) -> Result<u64, (Vec<u8>, String
     }
     Ok(n)
 }
+
+/// C12: a builder's output must not depend on what it built before.
+pub fn decode_payload(p: &[u8]) -> Option<Message> {
+    let frame = make_frame(p, 0);
+    let r = std::panic::catch_unwind(|| MessageFrame::new(&frame).ok().map(|f| f.get_message()));
+    match r { Ok(Some(m)) => match m { Message::Corrupt | Message::Empty | Message::MsgNotSupported(_) => None, m => Some(m) }, _ => None }
+}
+
+pub fn builder_search(rng: &mut crate::Rng, budget: u64) -> Result<u64, (Vec<u8>, String)> {
+    use rtcm_rs::msg::*;
+    let nums = supported_numbers();
+    // pool of history messages: long valid ones, and ones that fail late after writing many 1-bits
+    let mut history: Vec<Message> = vec![];
+    for n in [1004u16, 1012, 1077, 1087, 1033, 1029, 1059] {
+        if !nums.contains(&n) { continue; }
+        for style in [1u64, 2, 3] { if let Some(m) = decode_payload(&payload_for(n, rng, 1023, style)) { history.push(m); } }
+    }
+    if nums.contains(&1012) {
+        for style in [1u64, 2] {
+            if let Some(Message::Msg1012(mut m)) = decode_payload(&payload_for(1012, rng, 1023, style)) {
+                if let Some(last) = m.satellites.as_mut_slice().last_mut() { last.glo_satellite_freq_chan_number = -8; }   // OutOfRange at the very end
+                history.push(Message::Msg1012(m));
+            }
+        }
+    }
+    history.push(Message::Empty);
+    let mut n = 0u64;
+    let mut targets: Vec<Message> = vec![];
+    for num in &nums {
+        for k in 0..3u64 {
+            let len = [6usize, 40, 300][k as usize];
+            let extra = rng.below(30); if let Some(m) = decode_payload(&payload_for(*num, rng, len + extra, 3 + k)) { targets.push(m); }
+        }
+    }
+    while n < budget {
+        for t in &targets {
+            let tc = t.clone();
+            let fresh = std::panic::catch_unwind(move || { let mut b = MessageBuilder::new(); b.build_message(&tc).map(|x| x.to_vec()).map_err(|e| format!("{:?}", e)) });
+            let fresh = match fresh { Ok(f) => f, Err(_) => continue };
+            let hl = 1 + rng.below(3);
+            let seq: Vec<Message> = (0..hl).map(|_| history[rng.below(history.len())].clone()).collect();
+            let tc = t.clone();
+            let used = std::panic::catch_unwind(move || { let mut b = MessageBuilder::new(); for h in &seq { let _ = b.build_message(h); } b.build_message(&tc).map(|x| x.to_vec()).map_err(|e| format!("{:?}", e)) });
+            let used = match used { Ok(f) => f, Err(_) => return Err((vec![], "builder panicked in a build sequence".into())) };
+            n += 1;
+            if used != fresh {
+                let fr = fresh.clone().unwrap_or_default();
+                return Err((fr, format!("frame from a used builder differs from a fresh builder's frame for message {:?} (C12)", t.number())));
+            }
+            if n >= budget { break; }
+        }
+        if targets.is_empty() { break; }
+    }
+    Ok(n)
+}
+
+/// C14: classification by message number, exhaustively for two-byte and longer payloads.
+pub fn classify_search(rng: &mut crate::Rng) -> Result<u64, (Vec<u8>, String)> {
+    let mut n = 0u64;
+    // payloads shorter than two bytes are Empty, whatever follows the frame
+    for l in 0..2usize { for b in [0u8, 0x3e, 0xff] { for suf in [0usize, 1, 4] {
+        let p = vec![b; l];
+        let mut f = make_frame(&p, 0); f.extend(std::iter::repeat(0xd0u8).take(suf));
+        n += 1;
+        match MessageFrame::new(&f) { Ok(fr) => { if fr.get_message() != Message::Empty || fr.message_number().is_some() { return Err((f, format!("payload of {} byte(s) is not classified Empty", l))); } } Err(_) => return Err((f, "valid frame rejected".into())) }
+    } } }
+    let sup = supported_numbers();
+    for num in 0u16..4096 {
+        for len in [2usize, 3, 9, 64] {
+            let p = payload_for(num, rng, len, (num as u64) % 3);
+            let f = make_frame(&p, 0);
+            n += 1;
+            let r = std::panic::catch_unwind(|| MessageFrame::new(&f).map(|x| x.get_message()).ok());
+            let m = match r { Ok(Some(m)) => m, Ok(None) => return Err((p, "own frame rejected".into())), Err(_) => return Err((p, "decode panicked".into())) };
+            let ok = match &m {
+                Message::MsgNotSupported(t) => t.message_number == num && !sup.contains(&num),
+                Message::Corrupt => sup.contains(&num),
+                Message::Empty => false,
+                typed => typed.number() == Some(num) && sup.contains(&num),
+            };
+            if !ok { return Err((p, format!("number {} classified as {:?}", num, m.number()))); }
+        }
+    }
+    Ok(n)
+}
